@@ -1064,6 +1064,7 @@ def run(F, res, tier):
     # after every change of one notification (C13/D2)
     _c13.text_and_line_map_written_together(F, res, rule="U7")
     _c13.edits_use_the_current_line_map(F, res, rule="U7")
+    _c13.line_ends_are_normalised_first(F, res, rule="U8")     # every carriage-return line end is normalised, a lone one too (D1)
     n = text_positions_are_counted_in_bytes(F, res)
     res.floor("byte sinks of the workspace (text_size constructors, str slicing, String editing, Lexer::bump)", n, 24)
     from lib import units as _UN
